@@ -282,6 +282,7 @@ func c08BuilderReuse(s *c08State, mk func() ast.Block) {
 	var m, since ast.Block
 	for k, n := 0, 2+r.Intn(2); k < n; k++ {
 		content := mk()
+		content.Context = "" // this template enters facts, rules and checks only (FillAuthority sets no context)
 		if k > 0 {
 			content = s.freshContent(100 + k)
 			if r.Intn(4) == 0 {
@@ -420,8 +421,16 @@ func c08Run(c *core.C) {
 	f := newFamily(r, c.Seed, fmt.Sprintf("c08-%d", c.Idx), 2)
 	s := &c08State{c: c, f: f, scratch: lib.NewDetRand(c.Seed, fmt.Sprintf("c08-scratch-%d", c.Idx))}
 	mk := func() ast.Block {
-		o := gen.BlockOpts{MaxFacts: 3, MaxRules: 1, MaxChecks: 1, Rule: gen.RuleOpts{PConst: 0.35, PExpr: 0.3, MaxBody: 2}}
-		return f.U.Block(r, o)
+		o := gen.BlockOpts{MaxFacts: 3, MaxRules: 1, MaxChecks: 1, Rule: gen.RuleOpts{PConst: 0.35, PExpr: 0.3, MaxBody: 2}, Context: true}
+		b := f.U.Block(r, o)
+		// strings that are not UTF-8, control bytes, long strings: a block holds the caller's bytes, not a cleaned-up version
+		if r.Intn(3) == 0 {
+			b.Facts = append(b.Facts, ast.P("odd_text", gen.HardScalar(r, ast.KStr), ast.Str(gen.BigString(gen.Pick(r, []int{2, 3, 127, 128, 300}), r.Intn(5)))))
+		}
+		if r.Intn(8) == 0 {
+			gen.BigContent(r, r.Intn(gen.NumBigShapes), false, r.Intn(3) == 0).AddTo(&b)
+		}
+		return b
 	}
 	root, err := f.Root(r, c.Seed, fmt.Sprintf("c08-%d", c.Idx), mk(), nil)
 	if err != nil {
